@@ -4,6 +4,8 @@ import (
 	"fmt"
 	"go/types"
 
+	"jrpcvet/internal/facts"
+
 	"golang.org/x/tools/go/ssa"
 
 	"jrpcvet/internal/chk"
@@ -74,12 +76,13 @@ func ruleStopCancelsTable(c *chk.Ctx, owner string, table *types.Var, via *types
 			closeSite = s.instr
 		}
 	}
-	rs := rangesOverField(stop, table)
 	var good *ssa.Range
-	for _, r := range rs {
-		for _, v := range rangedValues(r) {
-			if _, ok := callsValueOrField(v, via); ok {
-				good = r
+	for _, g := range c.P.Ext(stop) {
+		for _, r := range rangesOverField(g, table) {
+			for _, v := range rangedValues(r) {
+				if _, ok := callsValueOrField(v, via); ok {
+					good = r
+				}
 			}
 		}
 	}
@@ -87,7 +90,8 @@ func ruleStopCancelsTable(c *chk.Ctx, owner string, table *types.Var, via *types
 		c.Fail("TOKEN.stop", stop, what, stop.Pos(), "the stop function does not range over %s invoking each entry's cancel function: %s would never be released at stop", table.Name(), what)
 		return
 	}
-	q := ir.PathQuery{Goal: func(i ssa.Instruction) bool { return i == ssa.Instruction(good) }}
+	goal := c.P.LiftGoal(func(i ssa.Instruction) bool { return i == ssa.Instruction(good) }, 0)
+	q := ir.PathQuery{Goal: goal}
 	if ok, at := q.MustReach(closeSite); !ok {
 		where := "?"
 		if at != nil {
@@ -131,21 +135,23 @@ func ruleRetainNotifications(c *chk.Ctx) {
 		return g != nil && ir.BaseName(g) == name && len(ci.Common().Args) > 0 && chk.IsField(ci.Common().Args[0], c.M.SInq)
 	}
 	var each, clear, add ssa.CallInstruction
-	ir.Calls(stop, func(ci ssa.CallInstruction) {
-		switch {
-		case isQ(ci, "Each"):
-			each = ci
-		case isQ(ci, "Clear"):
-			clear = ci
-		case isQ(ci, "Add"), isQ(ci, "Push"):
-			add = ci
-		}
-	})
+	for _, g := range c.P.Ext(stop) {
+		ir.Calls(g, func(ci ssa.CallInstruction) {
+			switch {
+			case isQ(ci, "Each"):
+				each = ci
+			case isQ(ci, "Clear"):
+				clear = ci
+			case isQ(ci, "Add"), isQ(ci, "Push"):
+				add = ci
+			}
+		})
+	}
 	if each == nil || clear == nil || add == nil {
 		c.Fail("RUN.retain", stop, "retain queued notifications", stop.Pos(), "the stop function does not walk the queue (Each=%v), clear it (Clear=%v) and re-queue (Add=%v): notifications received before the stop would be dropped", each != nil, clear != nil, add != nil)
 		return
 	}
-	okOrder := ir.InstrDominates(each, clear) && ir.InstrDominates(clear, add)
+	okOrder := c.P.IDominates(each, clear) && c.P.IDominates(clear, add)
 	c.Check(okOrder, "RUN.retain", stop, "walk, clear, re-queue order", clear.Pos(), "queue walked, then cleared, then retained members re-queued", "retained members must be collected before the queue is cleared and re-queued after it")
 	// inside the Each callback: the append of the member is governed by isNotification() == true
 	cbs, _ := c.P.FuncValues(each.Common().Args[len(each.Common().Args)-1])
@@ -239,15 +245,34 @@ func ruleDispatcherExit(c *chk.Ctx) {
 				}
 			}
 		}
-		var at ssa.Instruction = r
-		for _, i2 := range r.Block().Instrs {
-			if _, ok := i2.(*ssa.RunDefers); ok {
-				at = i2 // facts before the deferred unlock runs
-				break
+		// "stopped" must have been established under the lock on this path: a dominating
+		// `channel == nil` outcome whose test ran with the lock held, with no re-acquisition of
+		// the lock between the test and the return (releasing it before returning is fine)
+		stopped := false
+		lock := ownerLock(c, "server")
+		for _, cd := range ir.CondsAt(r.Block()) {
+			x, eq, ok := ir.NilCompare(cd.V)
+			if !ok || !chk.LoadsField(x, c.M.SCh) || eq != cd.Truth || cd.If == nil {
+				continue
+			}
+			st := c.F.At(cd.If)
+			if !st.Has(facts.Held, lock) {
+				continue
+			}
+			relock := false
+			for _, i2 := range between(cd.If, r) {
+				if ci, ok := i2.(ssa.CallInstruction); ok {
+					if op, lp, ok := facts.IsMutexOp(ci.Common()); ok && op == "lock" && lp == lock {
+						if _, isDefer := i2.(*ssa.Defer); !isDefer {
+							relock = true
+						}
+					}
+				}
+			}
+			if !relock {
+				stopped = true
 			}
 		}
-		st := c.F.At(at)
-		stopped := st.Has(3+1, chk.PathOfVar(c.M.Server, c.M.SCh)) // facts.IsNil
 		ok2 := emptyKnown && stopped
 		c.Check(ok2, "RUN.drain", f, "dispatcher exit", r.Pos(), "the dispatcher returns without work only when stopped ∧ queue empty", fmt.Sprintf("the dispatcher can exit with stopped=%v, queue-empty-known=%v: queued notifications would never be dispatched and WaitStatus would find the queue non-empty", stopped, emptyKnown))
 	})
